@@ -234,8 +234,13 @@ impl rustc_driver::Callbacks for Cb {
                         }
                         TerminatorKind::Assert { msg, .. } => {
                             let (l, fe) = loc(tcx, t.source_info.span);
-                            let kind = format!("{:?}", msg);
-                            let short: String = kind.chars().take(160).collect();
+                            let mut kind = format!("{:?}", msg);
+                            if let rustc_middle::mir::AssertKind::Overflow(_, l, _) = &**msg {
+                                kind = format!("{} :: {}", kind, l.ty(&body.local_decls, tcx));
+                            } else if let rustc_middle::mir::AssertKind::OverflowNeg(l) = &**msg {
+                                kind = format!("{} :: {}", kind, l.ty(&body.local_decls, tcx));
+                            }
+                            let short: String = kind.chars().take(200).collect();
                             if !asserts.is_empty() {
                                 asserts.push(',');
                             }
